@@ -62,20 +62,20 @@ PROPS = {
         "scale": {"quick": 1, "thorough": 40},
         "floors": {
             "quick": {"bdd_compile_cnf": 1000, "bdd_compile_with_assignments": 3000, "bdd_compile_plan": 800, "sdd_compile_cnf": 700,
-                      "sdd_compile_plan": 600, "bdd_compile_expr": 800, "sdd_compile_expr": 800, "bdd_compile_random_plan": 500},
+                      "sdd_compile_plan": 600, "bdd_compile_expr": 800, "sdd_compile_expr": 800, "bdd_compile_random_plan": 500, "wide_inputs": 200},
             "thorough": {"bdd_compile_cnf": 40000},
         },
-        "rule": "One evaluation = one compilation compared with the harness's own evaluation of the input on all 2^n assignments (n <= 10): BDD compile_cnf under a random order permutation and either cache; compile_cnf_with_assignments(c,m) for random partial assignments m of every size (must have the restricted table AND be pointer-equal to condition_model(compile_cnf(c),m)); compile_plan(BottomUpPlan::from_dtree(DTree::from_cnf(c, elim))) for elim in {linear, min-fill, FORCE, random} (right table AND pointer-equal to compile_cnf); SDD compile_cnf / compile_plan under right-linear, left-linear, balanced, random and dtree-derived vtrees; compile_logical_expr for random expression trees over all 7 constructors (depth <= 8) on BDD and SDD; random plans with constants. CNFs include the empty formula, empty clauses, units, repeated and complementary literals, unused indices, up to 200 clauses. Non-trivial = the input's function is neither constant nor a literal; distinct = distinct (function, route/configuration) pairs. Cnf::eval is used only as a cross-check of the oracle (disagreements are counted in evidence).",
+        "rule": "One evaluation = one compilation compared with the harness's own evaluation of the input on all 2^n assignments (n <= 10): BDD compile_cnf under a random order permutation and either cache; compile_cnf_with_assignments(c,m) for random partial assignments m of every size (must have the restricted table AND be pointer-equal to condition_model(compile_cnf(c),m)); compile_plan(BottomUpPlan::from_dtree(DTree::from_cnf(c, elim))) for elim in {linear, min-fill, FORCE, random} (right table AND pointer-equal to compile_cnf); SDD compile_cnf / compile_plan under right-linear, left-linear, balanced, random and dtree-derived vtrees; compile_logical_expr for random expression trees over all 7 constructors (depth <= 8) on BDD and SDD; random plans with constants. CNFs include the empty formula, empty clauses, units, repeated and complementary literals, unused indices, up to 200 clauses. Non-trivial = the input's function is neither constant nor a literal; distinct = distinct (function, route/configuration) pairs. Cnf::eval is used only as a cross-check of the oracle (disagreements are counted in evidence). Wide regime: the input's (at most 10) variables are spread over up to 200 rsdd labels, biased to the 64/128 word boundaries, most indices unused; orders, vtrees, partial models and weight tables cover the whole label range, while the oracle keeps working on the dense variables through the harness's own label map.",
         "assumptions": ASSUME_COMMON + ["S9: FORCE is not applied to CNFs with an empty clause and no dtree is built for the empty formula (outside the listed domains)"],
     },
     "C06": {
         "profiles": {"quick": ["mon"], "thorough": ["mon", "monrel"]},
         "scale": {"quick": 1, "thorough": 40},
         "floors": {
-            "quick": {"compilations": 5000, "conditionings": 50000, "compilations_in_a_used_builder": 1200, "builder_literals": 10000},
+            "quick": {"compilations": 5000, "conditionings": 50000, "compilations_in_a_used_builder": 1200, "builder_literals": 10000, "compilations_over_spread_labels": 200},
             "thorough": {"compilations": 200000},
         },
-        "rule": "One evaluation = one top-down compilation (StandardDecisionNNFBuilder or SemanticDecisionNNFBuilder over the 64-bit prime) of a generated CNF under a decision order: the result is walked structurally into a truth table and compared with the harness's evaluation of the clause list; is_false() must coincide with unsatisfiability; no node's variable may re-occur below it (no path decides a variable twice); condition(r,v,b) and condition(!r,v,b) are compared with the cofactor for every variable and value. Regime allorders: every permutation of the variables for CNFs over <= 4 variables; rand: random permutations, <= 9 variables, both stores on the same input; reuse: ONE builder compiles 3-5 related CNFs over the same variables one after the other (the first one again at the end), every result checked as above and every earlier result re-walked after each later compilation; TopDownBuilder::var literals are checked too. CNFs are biased to unit clauses, implication chains with a unit at one end, UNSAT cores found only after branching, and the same clause pattern on two disjoint variable blocks (component-cache hits); empty formula, empty clauses, tautological clauses and duplicate literals occur. Non-trivial = function neither constant nor literal; distinct = distinct (function, order, store) triples.",
+        "rule": "One evaluation = one top-down compilation (StandardDecisionNNFBuilder or SemanticDecisionNNFBuilder over the 64-bit prime) of a generated CNF under a decision order: the result is walked structurally into a truth table and compared with the harness's evaluation of the clause list; is_false() must coincide with unsatisfiability; no node's variable may re-occur below it (no path decides a variable twice); condition(r,v,b) and condition(!r,v,b) are compared with the cofactor for every variable and value. Regime allorders: every permutation of the variables for CNFs over <= 4 variables; rand: random permutations, <= 9 variables, both stores on the same input; reuse: ONE builder compiles 3-5 related CNFs over the same variables one after the other (the first one again at the end), every result checked as above and every earlier result re-walked after each later compilation; TopDownBuilder::var literals are checked too. CNFs are biased to unit clauses, implication chains with a unit at one end, UNSAT cores found only after branching, and the same clause pattern on two disjoint variable blocks (component-cache hits); empty formula, empty clauses, tautological clauses and duplicate literals occur. Non-trivial = function neither constant nor literal; distinct = distinct (function, order, store) triples. Wide regime: the input's (at most 10) variables are spread over up to 200 rsdd labels, biased to the 64/128 word boundaries, most indices unused; orders, vtrees, partial models and weight tables cover the whole label range, while the oracle keeps working on the dense variables through the harness's own label map.",
         "exhaustive_note": "for CNFs over <= 4 variables every permutation of the variables is used as decision order; the CNFs themselves are sampled",
         "assumptions": ASSUME_COMMON + ["semantic-hash store: a 64-bit hash collision would be a false alarm with probability ~2^-50 per run; none has been observed"],
     },
@@ -84,10 +84,10 @@ PROPS = {
         "scale": {"quick": 1, "thorough": 40},
         "floors": {
             "quick": {"solvers": 1500, "decides": 50000, "pops": 15000, "states_checked": 30000, "decides_with_propagation": 3000,
-                      "hash_repeats": 1000, "states_sat": 500, "decide_unsat": 1000},
+                      "hash_repeats": 1000, "states_sat": 500, "decide_unsat": 1000, "solvers_over_spread_labels": 400},
             "thorough": {"decides": 2000000},
         },
-        "rule": "One evaluation = one solver driven through a random decide/pop history (30-150 steps; long regime 300-600) over a generated CNF with <= 10 variables (clause widths 1-5, duplicate literals, tautological clauses, occasionally an empty clause or the empty formula). After construction and after every decide the observable state (model through the read-only hook, is_set, difference_iter, is_sat, cur_hash) is checked: (1) every assigned value is entailed -- brute force over all models of CNF and decisions; (2) UNSAT / None only if no model extends the decisions, and a refused decision leaves the state unchanged; (3) no clause falsified or with exactly one unassigned literal and no true literal, and the model contains the closure computed by an independent naive propagator; (4) the state observed after pop equals field by field the state recorded before the matching decide (pops unwind 1..k levels); (5) is_sat iff every non-tautological clause has a true literal; (6) per solver a map hash -> residual formula: a second, different residual under the same hash is a violation (asserted only while the product of all occurrence primes is < 2^128). Decisions re-decide assigned variables and decide against implied values. Non-trivial = at least one decision propagated a further literal; distinct = distinct (CNF) inputs.",
+        "rule": "One evaluation = one solver driven through a random decide/pop history (30-150 steps; long regime 300-600) over a generated CNF with <= 10 variables (clause widths 1-5, duplicate literals, tautological clauses, occasionally an empty clause or the empty formula). After construction and after every decide the observable state (model through the read-only hook, is_set, difference_iter, is_sat, cur_hash) is checked: (1) every assigned value is entailed -- brute force over all models of CNF and decisions; (2) UNSAT / None only if no model extends the decisions, and a refused decision leaves the state unchanged; (3) no clause falsified or with exactly one unassigned literal and no true literal, and the model contains the closure computed by an independent naive propagator; (4) the state observed after pop equals field by field the state recorded before the matching decide (pops unwind 1..k levels); (5) is_sat iff every non-tautological clause has a true literal; (6) per solver a map hash -> residual formula: a second, different residual under the same hash is a violation (asserted only while the product of all occurrence primes is < 2^128). Decisions re-decide assigned variables and decide against implied values. Non-trivial = at least one decision propagated a further literal; distinct = distinct (CNF) inputs. Wide regime: the input's (at most 10) variables are spread over up to 200 rsdd labels, biased to the 64/128 word boundaries, most indices unused; orders, vtrees, partial models and weight tables cover the whole label range, while the oracle keeps working on the dense variables through the harness's own label map.",
         "assumptions": ASSUME_COMMON + ["S6: decide() returning UNSAT pushes nothing, so the harness pops only after SAT/Unknown and never pops the two base states"],
     },
     "C07": {
@@ -130,7 +130,7 @@ PROPS = {
         "scale": {"quick": 1, "thorough": 30},
         "floors": {
             "quick": {"orders_checked": 5000, "dtrees": 3000, "dtree_nodes": 20000, "vtrees_from_dtree": 3000, "managers": 400,
-                      "lca_pairs": 50000, "shapes_enumerated": 65},
+                      "lca_pairs": 50000, "shapes_enumerated": 65, "large_vtrees": 10, "library_constructed_vtrees": 300, "managers_over_label_sets_with_gaps": 200},
             "thorough": {"dtrees": 100000},
         },
         "rule": "One evaluation = one derived object inspected structurally and compared with its definition recomputed from the CNF: (orders) linear, min-fill, FORCE, explicit and new_last-extended orders are permutations of 0..n with get/var_at_level mutually inverse, in_order_iter/lt/lte consistent; (dtrees) for each CNF and elimination order (every permutation for <= 4 variables; linear/min-fill/FORCE/random up to 12) the leaves are exactly the CNF's clauses, vars(node) = vars(l) | vars(r), internal cutsets = (vars(l)&vars(r)) minus ancestor cutsets and leaf cutsets = clause variables minus ancestor cutsets; (vtree from dtree) every CNF variable exactly once; (vtree manager) for every tree shape on <= 6 leaves (random labelling) and random shapes up to 12 leaves: var_index = in-order index, vtree(idx) structurally equal to the in-order node, lca for ALL node pairs against a range-based reference, prime/sub relation against left/right position (indices, variables, pointers), num_vars = number of leaves on dense label sets (S12). CNFs include unit and duplicate clauses, tautological clauses, disconnected components and unused variable indices. Every case is non-trivial; distinct = distinct inputs.",
@@ -142,7 +142,7 @@ PROPS = {
         "scale": {"quick": 1, "thorough": 30},
         "floors": {
             "quick": {"cnfs": 1400, "evals": 10000, "conditions": 4000, "wmcs": 2800, "is_sat_partial": 8000, "model_steps": 30000,
-                      "literals": 50000, "hashes": 10000, "residual_repeats": 2000, "hasher_histories": 700, "edge_cases": 8},
+                      "literals": 50000, "hashes": 10000, "residual_repeats": 2000, "hasher_histories": 700, "edge_cases": 8, "models_over_more_than_64_variables": 250},
             "thorough": {"cnfs": 40000},
         },
         "rule": "One evaluation = one generated object checked against its set-theoretic definition: (cnf) Cnf::new keeps each clause as the given literal set and num_vars = max label + 1; eval on every assignment, condition(lit) for every literal (compared with the cofactor of the truth table), brute-force wmc in the real and 64-bit-field semirings against the exact sum over models (incl. the empty formula and formulas with empty clauses, regime edge), is_sat_partial for random partial models (implies 'every extension satisfies'; equivalence on CNFs without tautological clauses, S7); (models) PartialModel and VarSet driven through random set/unset/insert/remove histories against HashMap/HashSet models, all accessors, iterators, constructors, set operations and difference() against an earlier snapshot (which may disagree on variables) compared after every step; (literals) label/polarity round trip for labels up to 2^63-1; (hasher) CnfHasher driven through random push/decide/pop histories, hash(m) for random models m extending the decisions that falsify no clause: a map residual-family -> hash and a map hash -> residual-family must both stay functional (the second only while the product of all occurrence primes is < 2^128, S5). Non-trivial = CNF neither constant nor literal (cnf regime) / every history (others); distinct = distinct inputs.",
@@ -177,10 +177,10 @@ PROPS = {
         "scale": {"quick": 1, "thorough": 40},
         "floors": {
             "quick": {"marginal_map": 1400, "bb_real": 1400, "meu": 1400, "bb_eu": 1400, "queries_with_ignored_variable": 200,
-                      "cases_with_utilities": 500, "cases_with_tiny_utilities": 300},
+                      "cases_with_utilities": 500, "cases_with_tiny_utilities": 300, "cases_over_spread_labels": 300, "cases_with_tied_optima": 1000},
             "thorough": {"marginal_map": 50000},
         },
-        "rule": "One evaluation = one optimisation query on a BDD (random order, <= 7 variables; parity / ite(x,g,!g) / threshold / random functions) compared with exhaustive maximisation by the oracle. marginal_map and bb::<RealSemiring>: query set = empty, all, or a random subset in random order (incl. variables the function ignores); every weight in [0,1] (dyadic, sixteenths), non-query variables normalised, query weights arbitrary with frequent near-ties; expected optimum = max over query assignments a of prod w(a) * U(f|a), U the exact unsmoothed count (S2). meu and bb::<ExpectedUtility>: decision variables carry (1,0),(1,0), chance variables (p,0),(1-p,0), utility-bearing variables (1,u_lo),(1,u_hi) with non-negative dyadic utilities placed below every decision variable in the order; utilities are additionally scaled by 2^-s, s in {0,10,40,70,200} (exact) so that tiny magnitudes occur; expected optimum = max over decision assignments of the utility component of U(f|a). Checks: returned value equals the optimum EXACTLY (S13), the returned partial model assigns every query/decision variable, and the oracle value of that model equals the optimum (ties free). Non-trivial = function neither constant nor literal and a non-empty query; distinct = distinct (function, order, query, weights, query kind).",
+        "rule": "One evaluation = one optimisation query on a BDD (random order, <= 7 variables; parity / ite(x,g,!g) / threshold / random functions) compared with exhaustive maximisation by the oracle. marginal_map and bb::<RealSemiring>: query set = empty, all, or a random subset in random order (incl. variables the function ignores); every weight in [0,1] (dyadic, sixteenths), non-query variables normalised, query weights arbitrary with frequent near-ties; expected optimum = max over query assignments a of prod w(a) * U(f|a), U the exact unsmoothed count (S2). meu and bb::<ExpectedUtility>: decision variables carry (1,0),(1,0), chance variables (p,0),(1-p,0), utility-bearing variables (1,u_lo),(1,u_hi) with non-negative dyadic utilities placed below every decision variable in the order; utilities are additionally scaled by 2^-s, s in {0,10,40,70,200} (exact) so that tiny magnitudes occur; expected optimum = max over decision assignments of the utility component of U(f|a). Checks: returned value equals the optimum EXACTLY (S13), the returned partial model assigns every query/decision variable, and the oracle value of that model equals the optimum (ties free). Non-trivial = function neither constant nor literal and a non-empty query; distinct = distinct (function, order, query, weights, query kind). Wide regime: the input's (at most 10) variables are spread over up to 200 rsdd labels, biased to the 64/128 word boundaries, most indices unused; orders, vtrees, partial models and weight tables cover the whole label range, while the oracle keeps working on the dense variables through the harness's own label map.",
         "assumptions": ASSUME_COMMON + ["S2: the weighted count is the unsmoothed count U; weights are in the domain stated by the property"],
     },
     "C16": {
